@@ -171,6 +171,19 @@ CHECKS["C17"] = dict(
     note=NOTE_BASE + "Proof over a modelled runtime: asyncio timers and wake-ups are modelled and validated on a virtual-clock loop.",
     technique="Coq proof (wait invariants for every schedule and every number of concurrent waits) over a runtime model validated against the real event loop on a virtual clock",
     design="4/C17")
+CHECKS["C06"] = dict(
+    text="Theorems: write_changes_exactly_the_named_elements (for text/number/BLOB properties whose handlers neither veto nor refresh, after the "
+         "whole new*Vector every element holds the last value a child gave it and is untouched when no child names it; state, flags, metadata "
+         "and order untouched), element_named_takes_the_value_sent / element_not_named_is_unchanged, text_verbatim, number_by_the_common_reader "
+         "(the reader C10 proves correct), blob_byte_for_byte (base64 + size check on exactly what the client library sends), "
+         "switch_write_follows_the_rule (states pushed through the rule child by child), no_other_property_changes, no_other_device_is_reached "
+         "(router), submit_sends_exactly_the_assigned_elements (client). The composition client -> serializer -> fragmented stream -> server "
+         "connection handler -> framing -> router -> driver -> back is the system model (System/Model.v), VALIDATED by running the real stack "
+         "(byte pipes with fragmentation between the library's client and server connection handlers) and comparing every device state and client "
+         "view after every operation; a model-free oracle judges each write (values, siblings, other properties, other devices, writer's view).",
+    note=NOTE_BASE + "Known finding K1-C06: a write whose newBLOBVector exceeds the 2048-character threshold of the server's receive buffer is lost.",
+    technique="Coq proof (write effect and frame theorems over driver, router and client models) + system-level correspondence of the composed model with the real client/transport/router/driver stack",
+    design="4/C06")
 PENDING = {}
 props = [json.loads(l) for l in open(os.path.join(V, "properties.jsonl"))]
 checks, na = [], []
